@@ -908,6 +908,12 @@ func (runInfo *runInfoStruct) invokeChanExpr(expr *ast.ChanExpr) {
 	if rhs.Kind() == reflect.Chan {
 		// rhs is channel
 		// receive from rhs channel
+		if runInfo.interrupted() {
+			// cancelled before the operation starts: never a matter of which case Select picks
+			runInfo.err = ErrInterrupt
+			runInfo.rv = nilValue
+			return
+		}
 		cases := []reflect.SelectCase{{
 			Dir:  reflect.SelectRecv,
 			Chan: reflect.ValueOf(runInfo.ctx.Done()),
@@ -944,6 +950,12 @@ func (runInfo *runInfoStruct) invokeChanExpr(expr *ast.ChanExpr) {
 		return
 	}
 	// send rhs to lhs channel
+	if runInfo.interrupted() {
+		// cancelled before the operation starts: never a matter of which case Select picks
+		runInfo.err = ErrInterrupt
+		runInfo.rv = nilValue
+		return
+	}
 	cases := []reflect.SelectCase{{
 		Dir:  reflect.SelectRecv,
 		Chan: reflect.ValueOf(runInfo.ctx.Done()),
